@@ -716,6 +716,118 @@ def correspond(ctx):
     ctx.broken('correspondence:Fl64 primitive differs from CPython', ops[i])
   ctx.extra['primitive_cases'] = len(ops)
   ctx.log('primitives evaluated')
+  fx = fx_cases(ctx)
+  badfx = ctx.run_cases('fx', imports + ['Grist.Model.RelabelFrexp'], 'fx_bits', fx, shard=ctx.n(400, 4000), timeout=1200)
+  for i in badfx[:5]:
+    ctx.broken('correspondence:RelabelFrexp primitive (frexp/ldexp/floor) differs from CPython', fx[i])
+  ctx.extra['frexp_ldexp_floor_cases'] = len(fx)
+  # 4. the translator
+  correspond_translated(ctx)
+
+
+def fx_cases(ctx):
+  """math.frexp / math.ldexp / math.floor against Model/RelabelFrexp.v (the vocabulary of the translated range_around_float)"""
+  import random
+  rng = random.Random(ctx.seed + 77)
+  xs = [0.0, 5e-324, 1e-320, MINNORMAL / 2, pf(MINNORMAL), MINNORMAL, nf(MINNORMAL), 0.5, pf(0.5), 1.0, pf(1.0), nf(1.0), 1.5, 2.0,
+        3.0, 1e10, 2.0 ** 52, 2.0 ** 53, 2.0 ** 1000, 2.0 ** 1023, pf(INF), 0.1, 123.456, 1e-300, 1e300]
+  for _ in range(ctx.n(60, 3000)):
+    xs.append(unbits(rng.getrandbits(63)))
+  xs = [x for x in xs if x == x and x != INF]
+  out = []
+
+  def emit(op, a, n, exp):
+    out.append('(%s, %s, %s, %s)' % (hz(op), hz(a), hz(n), hzlist(exp)))
+
+  def ld(x, n):
+    try:
+      return [0, bits(math.ldexp(x, n))]
+    except OverflowError:
+      return [5]
+  for x in xs:
+    m, e = math.frexp(x)
+    emit(0, bits(x), 0, [bits(m), e])
+    emit(2, bits(x), 0, [int(math.floor(x))])
+    emit(2, bits(-x), 0, [int(math.floor(-x))])
+    for n in (1021, 53, 0, -1, -10, -53, rng.randint(-1100, 1100), rng.randint(-60, 60)):
+      emit(1, bits(x), n, ld(x, n))
+  for _ in range(ctx.n(80, 4000)):
+    z = rng.choice([0, 1, 2, 3, 2 ** 52, 2 ** 53 - 1, 2 ** 53, rng.getrandbits(rng.randint(1, 53))])
+    n = rng.choice([-1074, -1075, -1130, -53, 0, 1, 970, 971, 1023, rng.randint(-1200, 1030)])
+    emit(3, z, n, ld(z, n))
+  return out
+
+
+# ---- the translated code (harness/relabel2v.py -> coq/gen/Relabel_gen.v) -------------------------------------------------
+# untranslated glue, pinned by the hash of its AST (docstrings/comments excluded): what Model/Relabel.v was written from
+PINS = {
+  'relabeling.py:_group_insertions': 'eaf9a084df886562', 'relabeling.py:nextfloat': '2d059ae5c12b1da5',
+  'relabeling.py:prevfloat': '20206136069a3779', 'relabeling.py:is_valid_range': 'ed2cf1f62ad69178',
+  'relabeling.py:all_distinct': 'f5fb7d0c9393bfd1',
+  'relabeling.py:ListWithAdjustments.__init__': '59424b0d284382a8',
+  'relabeling.py:ListWithAdjustments.get_insertions': 'b71d3af4e6fb53b8',
+  'relabeling.py:ListWithAdjustments.get_adjustments': 'a210bc2950fa6b21',
+  'relabeling.py:ListWithAdjustments._do_adjust_range': '3b9b242bc121d0d7',
+  'column.py:PositionColumn': '247f84e2ef7727c7',
+}
+
+
+def regenerate(ctx):
+  import os
+  from harness import relabel2v
+  try:
+    text = relabel2v.translate_all(core.GRIST)
+    got = relabel2v.pin_hashes(core.GRIST)
+  except relabel2v.Untranslatable as e:
+    raise core.TieBroken('relabeling.py left the translated subset: %s' % e)
+  core.write_if_changed(os.path.join(core.COQ, 'gen', 'Relabel_gen.v'), text)
+  changed = sorted(k for k in PINS if got.get(k) != PINS[k])
+  ctx.extra['regenerated'] = {'file': 'coq/gen/Relabel_gen.v', 'translator': 'harness/relabel2v.py',
+                              'functions': [t[1] for t in relabel2v.TARGETS] + ['prepare_inserts'],
+                              'pinned_by_ast_hash': sorted(PINS)}
+  if changed:
+    raise core.TieBroken('untranslated code differs from the text the model was written from: %s' % ', '.join(changed))
+
+
+def correspond_translated(ctx):
+  """the translator itself, differentially: calls of the translated functions recorded in the running implementation,
+  the GENERATED definitions evaluated on them by vm_compute"""
+  import random
+  from harness import relabel_diff
+  rng = random.Random(ctx.seed + 2020)
+  pool = [c for c in ctx._c20 if len(c[0]) + len(c[1]) <= 40 and not c[2].endswith('#py')]
+  rng.shuffle(pool)
+  # cases that renumber or raise first: they reach _find_sparse_enough_range / _adjust_range
+  pool.sort(key=lambda c: 0 if (c[3][0] == 'exc' or c[3][1]) else 1)
+  pool = pool[:ctx.n(140, 3000)]
+  cap = ctx.n(80, 1500)
+  texts, counts = [], {}
+  with relabel_diff.Recorder(classify_exception, cap) as rec:
+    for orig, keys, _mode, _r in pool:
+      rec.next_case()
+      run_impl(orig, keys)
+  for name, recs in sorted(rec.records.items()):
+    for r in recs:
+      t = relabel_diff.coq_case(name, r)
+      if t is not None:
+        texts.append((name, t, r))
+        counts[name] = counts.get(name, 0) + 1
+  for orig, keys, _mode, r in pool[:ctx.n(60, 1500)]:
+    t = relabel_diff.driver_case(orig, keys, r)
+    if t is not None:
+      texts.append(('prepare_inserts', t, (orig, keys, r)))
+      counts['prepare_inserts'] = counts.get('prepare_inserts', 0) + 1
+  bad = ctx.run_cases('gen', ['Grist.Lib.Fl64', 'Grist.Model.Relabel', 'GristGen.Relabel_gen'], 'gen_case_ok',
+                      [t for _n, t, _r in texts], shard=ctx.n(120, 600), timeout=1200)
+  for j in bad[:5]:
+    ctx.broken('translation:harness/relabel2v.py: generated %s differs from the running function' % texts[j][0],
+               repr(texts[j][2])[:600])
+  for name in relabel_diff.METHODS + ['get_range', 'range_around_float', 'prepare_inserts']:
+    if not counts.get(name):
+      ctx.broken('translation:no recorded call of %s' % name, 'the differential validation of the translator is empty for it')
+  ctx.extra['translator_validation'] = {'recorded_calls_evaluated_in_coq': counts, 'total': len(texts),
+                                        'calls_outside_the_model_domain_skipped': rec.skipped}
+  ctx.log('translator validated on %d recorded calls' % len(texts))
 
 
 def search(ctx):
